@@ -656,3 +656,40 @@ def r03h(ctx):
         else:
             ctx.bad(cid, fpa.cls.module.loc(fpa.node) if fpa is not None else c.loc, f"{q} lets a filter pass and re-evaluates its predicate on the operator's input although {why}: rows are kept or dropped by the un-converted values")
     ctx.floor("value-changing operators on the filter pass-through list", n, 1)
+
+
+@rule(
+    "R03i",
+    ["C03", "C01", "C12"],
+    """ROW-PERMUTING OPERATORS ONLY PASS ORDER-INDEPENDENT PREDICATES: the operators that let filters pass because they merely
+    permute rows (every entry "row permutation" of the R03e table: shuffles, sort_values, set_index) declare
+    `_filter_passthrough_reorders_rows`, and the legality test consults that declaration and refuses a predicate that is not
+    computed row by row (or through reductions) from the operator's output - a cumulative, shifted or rolling value selects
+    other rows when it is evaluated in the order below the operator.""",
+)
+def r03i(ctx):
+    model = ctx.model
+    n = 0
+    for q, why in sorted(R03E_ALLOWED.items()):
+        if not why.startswith("row permutation"):
+            continue
+        c = next((k for k in model.expr_classes() if k.qual == q), None)
+        if c is None:
+            continue
+        if model.flag(c, "_filter_passthrough", default=False) is not True:
+            continue
+        n += 1
+        v = model.flag(c, "_filter_passthrough_reorders_rows", default=False)
+        cid = f"{q}:reorders-rows-declared"
+        (ctx.ok if v is True else ctx.bad)(cid, c.loc, "declares that it reorders rows" if v is True else f"{q} lets filters pass as a row permutation but does not declare `_filter_passthrough_reorders_rows`: order-dependent predicates (cumsum, shift, rolling of its output) are moved below it and select other rows")
+    ctx.floor("row-permuting operators on the filter pass-through list", n, 8)
+    mod, fn = model.func("_expr", "is_filter_pushdown_available")
+    a0 = fn.args.args[0].arg
+    par = fn.args.args[1].arg
+    consulted = False
+    for pt in flow.returns(fn):
+        if isinstance(pt.stmt.value, ast.Constant) and pt.stmt.value.value is False:
+            facts = [(unparse(t), pol) for t, pol in flow.facts(pt)]
+            if any(pol and t == f"{a0}._filter_passthrough_reorders_rows" for t, pol in facts) and any("Elemwise" in t for t, pol in facts):
+                consulted = True
+    (ctx.ok if consulted else ctx.bad)("_expr.is_filter_pushdown_available:order-dependent-predicate", mod.loc(fn), "refuses predicates that are not row-wise / reductions below a reordering operator" if consulted else "the legality test does not refuse order-dependent predicates below operators that reorder rows")
